@@ -365,7 +365,7 @@ func c18Nontrivial(c *c18File, lay *c18Layout) bool {
 
 func RunC18Roundtrip(ctx *core.Ctx) {
 	ctx.SetRule(c18Rule)
-	ncases := ctx.Scale(7, 80)
+	ncases := ctx.Scale(10, 80)
 	var wg sync.WaitGroup
 	sem := make(chan struct{}, 16)
 	for _, e := range gen.Catalog {
@@ -443,7 +443,11 @@ func c18RoundtripCase(ctx *core.Ctx, r *rand.Rand, e *gen.Entry, path string, sa
 	// 0. the independent walker (stdlib AES-GCM, harness AAD) must open every module and the modules must tile the file
 	if layErr != nil {
 		lib := "not tried"
-		if f, err := c18Open(c.Data, keys); err != nil {
+		if c18ErrKind(layErr) == "not-an-envelope" && e.Name != "T000" {
+			// the reader allocates what the 4 bytes at the module position say (file.go:1488) before it
+			// reads: gigabytes when they are plaintext. One attempt per run is enough.
+			lib = "not tried (the reader would allocate the bogus module length)"
+		} else if f, err := c18Open(c.Data, keys); err != nil {
 			lib = "OpenFile: " + err.Error()
 		} else if back, err := e.ReadGeneric(f, batch); err != nil {
 			lib = "GenericReader: " + err.Error()
@@ -516,6 +520,15 @@ func c18RoundtripCase(ctx *core.Ctx, r *rand.Rand, e *gen.Entry, path string, sa
 			fail(fmt.Sprintf("bloom-filter-lost %s deferred=%v", sig, c.Deferred), "a bloom filter present in the unencrypted twin is absent from the encrypted file (silently: every lookup must then scan): "+d, nil)
 		} else {
 			fail("page-index-differs "+sig, "page index of the encrypted file differs from the unencrypted twin: "+d, nil)
+		}
+	}
+	// the same through the lazy path (page index skipped at open, decrypted per chunk on demand)
+	if lf, lerr := c18Open(c.Data, keys, parquet.SkipPageIndex(true)); lerr != nil {
+		fail("open-error "+sig+" skip-page-index "+c18ErrKind(lerr), "OpenFile(SkipPageIndex) with the right keys failed: "+lerr.Error(), nil)
+	} else {
+		li, _ := c18IndexAndBloom(lf)
+		if d := c18DiffLines(ei, li); d != "" {
+			fail("lazy-page-index-differs "+sig, "page index read lazily (SkipPageIndex) differs from the one read at open (first: at open, second: lazy): "+d, nil)
 		}
 	}
 	if len(fneg) > 0 && len(tneg) == 0 {
